@@ -238,12 +238,64 @@ class ParserModel(object):
         self._table[key] = out
         return out
 
+    def opt_nonnull_states(self):
+        c, model = self.ctx, self
+        if getattr(self, '_nonnull', None) is not None:
+            return self._nonnull
+        states = set(model.states)
+        nonnull = set(states) - {0}
+        # forced entries
+        idx_state, idx_opt = 2, 3
+        for g in c.all_funcs():
+            for call in g.calls('cfg_parse_internal'):
+                fo = call.args[idx_opt]
+                if fo.kind == 'null':
+                    fs = call.args[idx_state]
+                    if fs.kind == 'int' and fs.ival in nonnull and fs.ival != -1:
+                        nonnull.discard(fs.ival)
+        changed = True
+        table = [(s, tok, trs) for s, tok, trs in model.table()]
+        while changed:
+            changed = False
+            for s, tok, trs in table:
+                for tr in trs:
+                    if tr.kind != 'next' or tr.next_state is None or tr.next_state not in nonnull:
+                        continue
+                    if s in nonnull and tr.assumes('opt', False):
+                        continue
+                    o = tr.next.get('opt')
+                    ok = False
+                    if o is None or o == ('p', 'opt'):
+                        ok = (s in nonnull) or tr.assumes('opt')
+                    elif o[0] == 'call':
+                        # non-null iff the path assumed so
+                        for cn, t, _ in tr.assume:
+                            na = _is_null_assumption(cn, t)
+                            if na and na[0] == o and not na[1]:
+                                ok = True
+                    if not ok:
+                        nonnull.discard(tr.next_state)
+                        changed = True
+        self._nonnull = nonnull
+        return nonnull
+
     def table(self, states=None, toks=None):
         states = self.states if states is None else states
         toks = sorted(TOKENS.values()) if toks is None else toks
         for s in states:
             for t in toks:
                 yield s, t, self.transitions(s, t)
+
+
+def _is_null_assumption(cnd, truth):
+    if cnd[0] != 'icmp' or cnd[1] not in ('eq', 'ne'):
+        return None
+    a, b = cnd[2], cnd[3]
+    if sym.is_const(a):
+        a, b = b, a
+    if not (sym.is_const(b) and b[1] == 0):
+        return None
+    return (a, (cnd[1] == 'eq') == truth)
 
 
 class sym_value(object):
